@@ -96,10 +96,12 @@ def playback_values(name, timeout):
     """one list of integer values per failing check: [(check description, [values…])]"""
     rc, out, dt, to = run_harness(name, timeout, extra=["-Z", "concrete-playback", "--concrete-playback=print"])
     tests = []
-    for m in re.finditer(r"/// Check for `[^`]*`: \"(.*?)\"\n///\n.*?let concrete_vals: Vec<Vec<u8>> = vec!\[(.*?)\];", out, re.S):
-        desc = m.group(1)
+    for m in re.finditer(r"/// Check for `([^`]*)`: \"(.*?)\"\n(?:(?!/// Check for).)*?let concrete_vals: Vec<Vec<u8>> = vec!\[(.*?)\];", out, re.S):
+        if m.group(1) == "cover":
+            continue
+        desc = m.group(2).strip('"')
         vals = []
-        for vm in re.finditer(r"vec!\[([0-9, ]*)\]", m.group(2)):
+        for vm in re.finditer(r"vec!\[([0-9, ]*)\]", m.group(3)):
             bs = [int(x) for x in vm.group(1).replace(" ", "").split(",") if x]
             vals.append(int.from_bytes(bytes(bs), "little"))
         tests.append((desc, vals))
